@@ -120,10 +120,12 @@ Definition assert_ (checks : bool) (mem : list Z) (cond : bool) : outcome unit :
    on the list length leaks into the theorems *)
 Definition size_t_of_ptrdiff (d : Z) : Z := if d <? 0 then d + 2 ^ 64 else d.
 
-(* SBEPP_SIZE_CHECK(begin, end, 0, N); the byte_range begin pointer is non-null
-   in this model *)
+(* SBEPP_SIZE_CHECK(begin, end, 0, N):
+     begin && begin <= end && N <= size_t(end - begin)
+   (the begin <= end conjunct was added by the C10 "fix:" commit); the
+   byte_range begin pointer is non-null in this model *)
 Definition size_check (off vend : Z) (N : nat) : bool :=
-  Z.of_nat N <=? size_t_of_ptrdiff (vend - off).
+  (off <=? vend) && (Z.of_nat N <=? size_t_of_ptrdiff (vend - off)).
 
 (* data(): size check, then the begin pointer *)
 Definition data (checks : bool) (mem : list Z) (off vend : Z) (N : nat) : outcome Z :=
